@@ -1,3 +1,5 @@
+import CG.Model.Block
+import CG.Generated.Tables
 import CG.Drv.Hex
 import CG.Model.Merkle
 import CG.Spec.Bip37
@@ -29,9 +31,88 @@ def seededIds (seed n : Nat) : List Bytes :=
 
 def parseMask (s : String) : List Bool := if s == "-" then [] else s.toList.map (· == '1')
 
+/-! ### whole blocks (`c14.blockv`, `c14.binputs`): `CG.Model.Block` on blocks assembled from kind letters -/
+namespace Blk
+open CG.Model.Block
+
+def heights : Heights :=
+  ⟨Generated.C14_BCH_FORK_HEIGHT_MAINNET, Generated.C14_BCH_FORK_HEIGHT_TESTNET,
+   Generated.C14_GENESIS_HEIGHT_MAINNET, Generated.C14_GENESIS_HEIGHT_TESTNET⟩
+
+def ci : Nat := Generated.C14_COINBASE_INDEX
+
+/-- the transaction the harness builds for a kind letter at position `i` (`prev` = outpoint spent by the previous
+    non-coinbase transaction) -/
+def kindTx (k : Char) (i : Nat) (prev : Option OutPoint) : Option BTx :=
+  let f1 : Bytes := List.replicate 32 1       -- stands for the id of the first funding transaction
+  let f2 : Bytes := List.replicate 32 2
+  if k == 'c' then some ⟨[⟨List.replicate 32 0, ci⟩], fun _ _ => some "unreachable"⟩
+  else if k == 'v' then some ⟨[⟨f1, i % 700⟩], fun _ _ => none⟩
+  else if k == 'x' then some ⟨[⟨List.replicate 32 0xee, i⟩], fun _ _ => some "BadData"⟩
+  else if k == 'g' then some ⟨[⟨f2, 2 * (i % 32)⟩], fun _ g => if g then none else some "ScriptError"⟩
+  else if k == 'l' then some ⟨[⟨f2, 2 * (i % 32) + 1⟩], fun f _ => if f then some "ScriptError" else none⟩
+  else if k == 'f' then some ⟨[⟨f2, 2 * (i % 32) + 1⟩], fun _ _ => none⟩
+  else if k == 'd' then prev.map fun p => ⟨[p], fun _ _ => none⟩
+  else none
+
+def kindTxs (ks : List Char) : Option (List BTx) :=
+  let rec go : List Char → Nat → Option OutPoint → Option (List BTx)
+    | [], _, _ => some []
+    | k :: r, i, prev =>
+      match kindTx k i prev with
+      | none => none
+      | some t =>
+        let prev' := if k == 'c' then prev else t.inputs.head?
+        (go r (i + 1) prev').map (t :: ·)
+  go ks 0 none
+
+def netOf (n : Nat) : Option Network := Network.all[n]?
+
+def cls (o : Outcome Unit) : String :=
+  match o with
+  | .ok _ => "ok"
+  | .err e => "err:" ++ (e.splitOn ":").headD e
+  | .panic s => "panic:" ++ s
+
+def handleV (a : List String) : Option String :=
+  match a with
+  | [n, h, rootok, kinds] =>
+    match n.toNat?.bind netOf, h.toInt?, kindTxs (if kinds == "-" then [] else kinds.toList) with
+    | some net, some height, some txs =>
+      -- the root check of an empty block is `BadData("Txn count is zero")`; otherwise the harness computes the root itself
+      let rc : Outcome Unit := if txs.isEmpty then .err "BadData" else if rootok == "1" then .ok () else .err "BadData"
+      let m := validate heights ci height net rc txs
+      -- reference: the characterisation proved in `CG.Props.Block.Block_validate_iff`
+      let f := requireForkid heights net height
+      let g := useGenesis heights net height
+      let accept := rc == .ok () && (txs.filter (isCoinbase ci)).length == 1 &&
+        txs.all (fun t => isCoinbase ci t || (t.verdict f g).isNone)
+      some (cls m ++ "\t" ++ (if accept then "class:ok" else "class:err"))
+    | _, _, _ => some "bad-request\tbad-request"
+  | _ => some "bad-request\tbad-request"
+
+def handleI (a : List String) : Option String :=
+  match a with
+  | [kinds] =>
+    match kindTxs (if kinds == "-" then [] else kinds.toList) with
+    | some txs =>
+      let m := match inputs ci txs with
+        | .ok l => "ok:" ++ toString l.length
+        | .err e => "err:" ++ (e.splitOn ":").headD e
+        | .panic s => "panic:" ++ s
+      let sp := (txs.filter (fun t => !isCoinbase ci t)).flatMap (·.inputs)
+      let spec := if sp.eraseDups.length == sp.length then "ok:" ++ toString sp.length else "err:BadData"
+      some (m ++ "\t" ++ spec)
+    | none => some "bad-request\tbad-request"
+  | _ => some "bad-request\tbad-request"
+
+end Blk
+
 /-- returns `model<TAB>spec` -/
 def handle (op : String) (a : List String) : Option String :=
   match op, a with
+  | "c14.blockv", a => Blk.handleV a
+  | "c14.binputs", a => Blk.handleI a
   -- c14.mb <total_transactions> <header merkle root> <flags> <hashes>
   | "c14.mb", [n, root, flags, hashes] =>
     match n.toNat?, unhex root, unhex flags, parseHexList hashes with
